@@ -234,6 +234,11 @@ func vxNewFixRole(cfg vxCfg, role string) *vxFix {
 	fx.ctl = NewFanController(nil, fan, vxLoop(cfg.Algo), 200*time.Millisecond).(*DefaultFanController)
 	fx.ctl.pwmMap = fx.pmap
 	fx.ctl.updateDistinctPwmValues()
+	// what Run() records before regulation starts (the cycle harnesses enter after start-up)
+	fx.ctl.originalPwmValue = cfg.StartPwm
+	if cfg.Kind == "hwmon" && !cfg.NoEnable {
+		fx.ctl.originalPwmEnabled = fans.ControlMode(cfg.StartMode)
+	}
 	return fx
 }
 
